@@ -1,11 +1,15 @@
 package apph
 
 import (
+	"bytes"
 	"crypto/sha256"
 	"encoding/hex"
 	"fmt"
+	"math/big"
+	"sort"
 
 	"github.com/Oneledger/protocol/action"
+	aeth "github.com/Oneledger/protocol/action/eth"
 	aevid "github.com/Oneledger/protocol/action/evidence"
 	agov "github.com/Oneledger/protocol/action/governance"
 	adeleg "github.com/Oneledger/protocol/action/network_delegation"
@@ -42,6 +46,15 @@ type Gen struct {
 	Staked    map[int]bool
 	Delegated map[int]bool
 	Kinds     map[string]int
+	EthExts   []*genExt // external Ethereum transactions submitted so far (only when the genesis has an ETH option)
+	ethNonce  uint64
+}
+
+// genExt is one submitted Ethereum-side transaction and who has reported on it.
+type genExt struct {
+	X         *extTx
+	Submitter *Acct
+	Voted     map[int]bool
 }
 
 type genProposal struct {
@@ -109,13 +122,19 @@ func pid(s string) governance.ProposalID {
 // Weights select which families of transactions a history uses.
 type Weights struct {
 	Transfer, Staking, Deleg, Rewards, Gov, Evidence, Ons int
+	Eth                                                   int // only drawn when the world's genesis carries an ETH chain-driver option
 }
 
-func AllWeights() Weights { return Weights{10, 8, 10, 4, 12, 6, 10} }
+func AllWeights() Weights { return Weights{10, 8, 10, 4, 12, 6, 10, 14} }
 
 // Next produces one transaction.
 func (g *Gen) Next(wt Weights) GenTx {
 	tot := wt.Transfer + wt.Staking + wt.Deleg + wt.Rewards + wt.Gov + wt.Evidence + wt.Ons
+	if g.W.P.ETH != nil && g.W.P.Witnesses > 0 && wt.Eth > 0 {
+		if g.R.Intn(tot+wt.Eth) >= tot {
+			return g.eth()
+		}
+	}
 	x := g.R.Intn(tot)
 	switch {
 	case x < wt.Transfer:
@@ -346,4 +365,82 @@ func (g *Gen) ons() GenTx {
 	default:
 		return g.mk("DOMAIN_DELETE_SUB", note, &aons.DeleteSub{Name: ons.Name(d.Name), Owner: who.Addr}, who)
 	}
+}
+
+// ethWitnesses returns the genesis witnesses in the order of the tracker's witness list
+// (GetWitnessAddresses iterates the witness store, i.e. sorted by address).
+func (g *Gen) ethWitnesses() []*Val {
+	var ws []*Val
+	for i, v := range g.W.Vals {
+		if v.Genesis && i < g.W.P.Witnesses {
+			ws = append(ws, v)
+		}
+	}
+	sort.Slice(ws, func(i, j int) bool { return bytes.Compare(ws[i].Key.Addr, ws[j].Key.Addr) < 0 })
+	return ws
+}
+
+// eth produces Ethereum lock / redeem submissions and witness finality reports: the traffic that
+// drives the tracker state machine of the block-end hook (event/ transitions, role dependent).
+func (g *Gen) eth() GenTx {
+	ws := g.ethWitnesses()
+	if len(g.EthExts) == 0 || g.R.Intn(10) < 3 {
+		kind := []int{1, 1, 1, 3, 3, 2, 4}[g.R.Intn(7)]
+		who := g.acct()
+		g.ethNonce++
+		x := buildExt(g.W.P.Seed, g.ethNonce, kind, 0, big.NewInt(int64(1+g.R.Intn(40))), false)
+		var msg action.Msg
+		name := map[int]string{1: "ETH_LOCK", 2: "ETH_REDEEM", 3: "ERC20_LOCK", 4: "ERC20_REDEEM"}[kind]
+		switch kind {
+		case 1:
+			msg = &aeth.Lock{Locker: who.Addr, ETHTxn: x.Raw}
+		case 2:
+			msg = &aeth.Redeem{Owner: who.Addr, To: ethContractAddr, ETHTxn: x.Raw}
+		case 3:
+			msg = &aeth.ERC20Lock{Locker: who.Addr, ETHTxn: x.Raw}
+		default:
+			msg = &aeth.ERC20Redeem{Owner: who.Addr, To: ethERCAddr, ETHTxn: x.Raw}
+		}
+		g.EthExts = append(g.EthExts, &genExt{X: x, Submitter: who, Voted: map[int]bool{}})
+		return g.mk(name, "submit", msg, who)
+	}
+	// a report: prefer recent submissions and witnesses that have not voted yet
+	e := g.EthExts[len(g.EthExts)-1-g.R.Intn(minInt(len(g.EthExts), 3))]
+	if g.R.Intn(12) == 0 {
+		// resubmission of a known external transaction
+		var msg action.Msg = &aeth.Lock{Locker: e.Submitter.Addr, ETHTxn: e.X.Raw}
+		if e.X.Kind == 3 {
+			msg = &aeth.ERC20Lock{Locker: e.Submitter.Addr, ETHTxn: e.X.Raw}
+		}
+		return g.mk("ETH_RESUBMIT", "duplicate", msg, e.Submitter)
+	}
+	idx := g.R.Intn(len(ws))
+	for k := 0; k < len(ws); k++ {
+		if !e.Voted[(idx+k)%len(ws)] {
+			idx = (idx + k) % len(ws)
+			break
+		}
+	}
+	note := "witness"
+	signer := ws[idx].Key
+	vi := int64(idx)
+	switch g.R.Intn(16) {
+	case 0:
+		signer, note = g.acct(), "non-witness"
+	case 1:
+		vi, note = int64(g.R.Intn(len(ws)+2)), "other-index"
+	}
+	ok := g.R.Intn(7) != 0
+	if note == "witness" {
+		e.Voted[idx] = true
+	}
+	msg := &aeth.ReportFinality{TrackerName: e.X.NameB, Locker: e.Submitter.Addr, ValidatorAddress: signer.Addr, VoteIndex: vi, Success: ok}
+	return g.mk("ETH_REPORT", note, msg, signer)
+}
+
+func minInt(a, b int) int {
+	if a < b {
+		return a
+	}
+	return b
 }
